@@ -94,13 +94,17 @@ def gen_case(run_seed, tier):
     for c in calls:
         c.append(wl.randrange(2))
     return {"n": n, "edges": [list(e) for e in g[1]], "n2": g2[0], "edges2": [list(e) for e in g2[1]], "family": fam, "history": calls,
-            "lseed": sz.randrange(10**9), "bug_rate": sz.choice([0.0, 0.0, 0.1, 0.3, 0.6])}
+            "lseed": sz.randrange(10**9), "bug_rate": sz.choice([0.0, 0.0, 0.1, 0.3, 0.6]), "shuffle_edges": sz.random() < 0.4}
 
 
 def simplify(case):
     if case["bug_rate"]:
         c = dict(case)
         c["bug_rate"] = 0.0
+        yield c
+    if case.get("shuffle_edges"):
+        c = dict(case)
+        c["shuffle_edges"] = False
         yield c
     for i in range(len(case["edges"])):
         c = dict(case)
@@ -127,7 +131,10 @@ def run_case(case):
     prepared = []
     for (nn, ee) in inputs:
         a0 = gref.adj_from_edges(nn, ee)
-        prepared.append((nn, ee, graphs.to_nx((nn, ee)), a0, gref.lc_orbit(a0) if nn <= 7 else None))
+        eos = case["lseed"] + 17 if case.get("shuffle_edges") else None
+        prepared.append((nn, ee, graphs.to_nx((nn, ee), edge_order_seed=eos), a0, gref.lc_orbit(a0) if nn <= 7 else None))
+    if case.get("shuffle_edges"):
+        ctx.probe("input_edges_inserted_in_shuffled_order")
     lib = random.Random(case["lseed"])
     bug = random.Random(case["lseed"] + 5)
     nontrivial = False
